@@ -4,6 +4,7 @@ import (
 	"bytes"
 	"context"
 	"fmt"
+	"hash/fnv"
 	"os"
 	"os/exec"
 	"path/filepath"
@@ -77,8 +78,11 @@ func obligationText(o *Obligation, models bool) string {
 func fileSafe(s string) string {
 	r := strings.NewReplacer("/", "_", " ", "_", "*", "p", "(", "", ")", "", "[", "_", "]", "_", ":", "_", "#", "-", "\"", "", "'", "", "$", "_", "<", "lt", ">", "gt", "|", "_", "&", "_", "~", "-", ",", "_", "=", "_", "!", "_", ";", "_", "\\", "_", "?", "_", "{", "_", "}", "_", "`", "", "%", "_", "+", "_", "@", "_at_")
 	s = r.Replace(s)
-	if len(s) > 150 {
-		s = s[:150]
+	if len(s) > 120 {
+		// keep names short but unique: two obligations must never share a file
+		h := fnv.New64a()
+		h.Write([]byte(s))
+		s = fmt.Sprintf("%s-%x", s[:120], h.Sum64())
 	}
 	return s
 }
